@@ -13,6 +13,7 @@ package simdrv
 
 import (
 	"context"
+	"database/sql"
 	"database/sql/driver"
 	"fmt"
 	"io"
@@ -52,6 +53,9 @@ type Fault struct {
 	Type  string `json:"type"`            // err applied_err bad_conn ack_lost rows_err
 	Burst int    `json:"burst,omitempty"` // bad_conn: number of consecutive matching calls that fail (>=1)
 	Row   int    `json:"row,omitempty"`   // rows_err: Next fails when Row rows were already delivered
+	// Class makes the injected error wrap a well-known error value (what errors.Is
+	// sees): "" plain, deadline, canceled, txdone, eof.  Not used with bad_conn.
+	Class string `json:"class,omitempty"`
 
 	seen      int
 	Fired     int `json:"fired"`
@@ -60,9 +64,30 @@ type Fault struct {
 
 // FaultErr is the error value an injected fault returns.
 type FaultErr struct {
-	ID   int
-	What string
+	ID    int
+	What  string
+	Class string
 }
+
+// ClassError maps an error class name to the value an injected error wraps.
+func ClassError(class string) error {
+	switch class {
+	case "deadline":
+		return context.DeadlineExceeded
+	case "canceled":
+		return context.Canceled
+	case "txdone":
+		return sql.ErrTxDone
+	case "eof":
+		return io.ErrUnexpectedEOF
+	}
+	return nil
+}
+
+// Classes are the error classes a fault plan may draw from.
+var Classes = []string{"deadline", "canceled", "txdone", "eof"}
+
+func (e *FaultErr) Unwrap() error { return ClassError(e.Class) }
 
 func (e *FaultErr) Error() string { return fmt.Sprintf("simfault#%d(%s)", e.ID, e.What) }
 
@@ -105,7 +130,7 @@ func (s *Sim) SetFaults(fs []*Fault) {
 		if f.remaining < 1 {
 			f.remaining = 1
 		}
-		s.errs[i] = &FaultErr{ID: f.ID, What: f.Kind + " " + f.Type}
+		s.errs[i] = &FaultErr{ID: f.ID, What: f.Kind + " " + f.Type, Class: f.Class}
 	}
 }
 
